@@ -348,9 +348,10 @@ def settle_connects(w):
     w.connecting = still
 
 
-def endpoint_key(conn, side):
-    s = conn[side]
-    return (side, s.getsockname(), s.getpeername())
+def queued_i(sock):
+    """number of I PDUs in the send queue of a connection endpoint (read
+    only, for the labels)"""
+    return sum(1 for p in list(sock._tco.send_queue) if p.name == "I")
 
 
 def op_ldl(w, side):
@@ -449,7 +450,7 @@ def live_conn(w, i):
     return live[i % len(live)] if live else None
 
 
-def op_send(w, i, side, kind, val):
+def op_send(w, i, side, kind, val, blocking=False):
     c = live_conn(w, i)
     if c is None:
         return
@@ -461,6 +462,20 @@ def op_send(w, i, side, kind, val):
     if AGF_CLASS in EXCLUDE_CLASSES and in_band(w.pair, side, n, 3):
         w.stats["excluded:" + AGF_CLASS] += 1
         n = max(0, n - 12)
+    if blocking:
+        # an application thread inside a plain send(): it returns when the
+        # I PDU was collected (or the connection ended); errors of the
+        # documented kind end up in the helper's box
+        if n > lim:
+            n = lim
+        data = bytes([val & 255]) * n
+        box = w.pair.call(lambda: s.send(data, 0), "send-" + side)
+        w.helpers.append(box)
+        w.stats["blocking-send"] += 1
+        if not box.done:
+            w.stats["blocking-send-waits"] += 1
+            w.last[side] = 3 + n
+        return
     try:
         ok = s.send(bytes([val & 255]) * n, nfc.llcp.MSG_DONTWAIT)
     except nfc.llcp.Error as err:
@@ -512,12 +527,12 @@ def op_close(w, i, side):
     c = live_conn(w, i)
     if c is None:
         return
-    # an I PDU still queued at close() is C05's finding (close/unsent-data):
-    # not this property's business, so only drained endpoints are closed
-    key = endpoint_key(c, side)
-    if w.wire.sent_i.get(key, 0) != c["n"][side]:
-        w.stats["close-skipped(unsent data)"] += 1
-        return
+    # I PDUs that send() accepted may still be queued: they leave in front
+    # of the DISC PDU and are judged like every other frame content
+    if queued_i(c[side]):
+        w.stats["closed-with-unsent-data"] += 1
+    if queued_i(c[other(side)]):
+        w.stats["closed-while-peer-has-unsent-data"] += 1
     c["dead"] = True
     w.helpers.append(w.pair.call(c[side].close, "close-" + side))
     w.stats["closed"] += 1
@@ -564,6 +579,8 @@ def op_badi(w, i, side):
     vr = s._tco.recv_cnt
     bad = pdu.Information(s.getsockname(), s.getpeername(), ns=(vr + 3) % 16,
                           nr=0, data=b"bad")
+    if queued_i(c["a"]) or queued_i(c["b"]):
+        w.stats["frmr-with-unsent-data"] += 1
     c["dead"] = True
     w.pair.inject(side, bad)
     w.stats["frmr-provoked"] += 1
@@ -603,6 +620,8 @@ def run_ops(w, ops):
             op_connect(w, *op[1:])
         elif name == "send":
             op_send(w, *op[1:])
+        elif name == "bsend":
+            op_send(w, *op[1:], blocking=True)
         elif name == "recv":
             op_recv(w, *op[1:])
         elif name == "busy":
@@ -649,7 +668,9 @@ def run_machine(case, ctx):
                     "oversize-refused", "send-wouldblock", "connect-refused",
                     "connect-failed", "frmr-provoked", "closed", "flush-not-quiescent",
                     "pdu-for-unbound-sap", "connect-name-longer-than-miu",
-                    "close-skipped(unsent data)", "i-received",
+                    "closed-with-unsent-data", "frmr-with-unsent-data",
+                    "closed-while-peer-has-unsent-data", "blocking-send",
+                    "blocking-send-waits", "i-received",
                     "connections",
                     "excluded:" + SDRES_CLASS, "excluded:" + AGF_CLASS,
                     "excluded-residual:" + AGF_CLASS,
@@ -712,10 +733,26 @@ OPS = {
     "scene-sdreq": st.tuples(st.just("scene-sdreq"), side_,
                              st.integers(2, 5), st.integers(40, 60), idx_,
                              kind_, val_),
+    # a connection ends while I PDUs are still queued: up to 3 sends that
+    # do not wait (the last one optionally a thread blocked in send()), then
+    # close() here / close() at the peer (its DISC arrives) / a bad I PDU
+    # arrives here (FRMR to send) / at the peer (its FRMR arrives); a
+    # datagram socket may put a PDU in front (before) or fill what is left
+    # (after); then the frame is collected
+    "scene-eol": st.tuples(st.just("scene-eol"), idx_, side_,
+                           st.lists(st.tuples(st.sampled_from([5, 6, 2, 4, 0]),
+                                              val_), min_size=1, max_size=3),
+                           st.booleans(),
+                           st.sampled_from(["close", "close", "close",
+                                            "peer-close", "badi", "peer-badi"]),
+                           st.sampled_from([None, None, 5, 2, 4]), val_,
+                           st.sampled_from([None, 6, 6, 4]), val_,
+                           st.booleans()),
 }
 WEIGHTS = (["x"] * 8 + ["sendto"] * 6 + ["send"] * 8 + ["recv"] * 4
            + ["busy"] * 2 + ["resolve"] * 3 + ["snl"] * 3 + ["connect"] * 2
            + ["scene-ack"] * 3 + ["scene-fit"] * 4 + ["scene-sdreq"] * 2
+           + ["scene-eol"] * 4
            + ["ldl", "listen", "close", "badi", "stray"])
 
 
@@ -763,6 +800,27 @@ def machine_case(draw, max_steps):
             else:
                 ops.append(["send", i, side, 5, v1])
             ops += [["send", i, side, 6, v2], ["x", side]]
+        elif o[0] == "scene-eol":
+            _, i, side, sends, block, how, k1, v1, k2, v2, drain = o
+            if drain:
+                ops += [["x", side], ["x", side]]
+            if k1 is not None:
+                ops.append(["sendto", side, i, k1, v1, 0, i])
+            for j, (k, v) in enumerate(sends):
+                last = j == len(sends) - 1
+                ops.append(["bsend" if block and last else "send",
+                            i, side, k, v])
+            if how == "close":
+                ops.append(["close", i, side])
+            elif how == "peer-close":
+                ops += [["close", i, other(side)], ["x", other(side)]]
+            elif how == "badi":
+                ops.append(["badi", i, side])
+            else:
+                ops += [["badi", i, other(side)], ["x", other(side)]]
+            if k2 is not None:
+                ops.append(["sendto", side, i, k2, v2, 0, i])
+            ops.append(["x", side])
         elif o[0] == "scene-sdreq":
             _, side, k, nlen, i, kind, val = o
             if kind in (2, 5):
@@ -893,8 +951,12 @@ LEGS = [
              "non-multiples of 4 emphasised), aggregation on/off per side; "
              "drawn furniture (<=6 datagram sockets, <=3 listeners, <=10 "
              "connections with RW 0..15 and connection MIU 128..2175) then "
-             "<=40 (quick) / <=60 (thorough) operations that fill the queues; "
-             "every frame of every exchange and of the final flush is "
+             "<=40 (quick) / <=60 (thorough) operations that fill the queues, "
+             "among them connections that end while I PDUs are still queued "
+             "(1..3 non-blocking sends or a thread blocked in send(), then "
+             "close() / the peer's DISC / a bad I PDU -> FRMR / the peer's "
+             "FRMR, with a datagram of another socket in front of them or "
+             "sized around the room they leave in the frame); every frame of every exchange and of the final flush is "
              "judged; non-trivial = some frame aggregated >=2 PDUs or came "
              "within 8 byte of the MIU or carried >=30 SDRES."),
     Leg("sdres", run=run_sdres, enum=enum_sdres, exhaustive=True,
